@@ -237,6 +237,13 @@ STACKS = [
     S('backup_lin_strided_s2_f2', ['backup', 'lin', 'strided:s2', 'array:f2'], 'T'),
     S('lind_strided_s3_f3', ['lind', 'strided:s3', 'array:f3'], 'T', thr=True),
     S('hilbert_s2_d2', ['hilbert:s2', 'array:d2'], 'T', family='N2M2d'),
+    # whole stacks with N != M under the affine layer, and affine over double coordinates
+    S('aff_nn_strided_s3_f1', ['affine', 'nn', 'strided:s3', 'array:f1'], family='WN3M1f'),
+    S('aff_lin_mortonp_s3_f1', ['affine', 'lin', 'mortonp:s3', 'array:f1'], family='WN3M1f'),
+    S('aff_lin_strided_s2_f3', ['affine', 'lin', 'strided:s2', 'array:f3'], 'T', family='WN2M3f'),
+    S('aff_nn_mortonb_s2_f3', ['affine', 'nn', 'mortonb:s2', 'array:f3'], 'T', family='WN2M3f'),
+    S('aff_lind_strided_s2_f2', ['affine', 'lind', 'strided:s2', 'array:f2'], thr=True),
+    S('aff_nnd_strided_s3_d3', ['affine', 'nnd', 'strided:s3', 'array:d3'], 'T'),
     # device storage behind the CUDA shim
     S('strided_s3_cuda_f3', ['strided:s3', 'cuda:f3'], family='N3M3f'),
 ]
